@@ -1,7 +1,7 @@
 """Shared discovery helpers for the AEAD rules (C02, C03, C17) and others."""
 import re
 
-from ..core import strip_reborrow, operand_locals, def_sites, AnchorError
+from ..core import strip_reborrow, operand_locals, def_sites, single_def, AnchorError
 from ..engines import (auth_fixpoint, auth_check, CT_T, CT_F, OK, ERR, returns_result,
                        views_of)
 from ..expr import expr_of_operand, atoms_of
@@ -96,6 +96,28 @@ NARROWING = {"std::ops::IndexMut::index_mut", "std::ops::Index::index",
              "core::slice::<impl [T]>::split_at_mut", "core::slice::<impl [T]>::split_at"}
 
 
+def agg_field(fn, src):
+    """`(t.i)` where t is (a move of) a tuple/struct built in this body from whole locals: the local
+    that was stored in field i (so a value handed out of an extracted helper as part of a tuple is
+    the same object as the one the helper built)."""
+    fields = [pe for pe in src["p"] if pe != "deref"]
+    if len(fields) != 1 or not isinstance(fields[0], dict) or "f" not in fields[0]:
+        return None
+    base = strip_reborrow(fn, src["l"])[-1]
+    d = single_def(fn, base)
+    if d is None or d[1] != "assign" or d[2]["rv"]["k"] != "agg":
+        return None
+    rv = d[2]["rv"]
+    ops = rv["ops"]
+    i = fields[0]["f"]
+    if rv.get("agg") not in ("tuple", "adt") or i >= len(ops):
+        return None
+    o = ops[i]
+    if o.get("k") in ("copy", "move") and not o["p"]:
+        return o["l"]
+    return None
+
+
 def view_info(fn, local, depth=10):
     """(root, narrowed, path): like view_root but also reports whether an Index/split narrowing lies
     between the root storage and the view, and follows Option::unwrap_or(param, default)."""
@@ -123,6 +145,10 @@ def view_info(fn, local, depth=10):
             elif rv["k"] in ("ref", "rawptr"):
                 src = rv["place"]
             if src is not None and src["l"] != cur:
+                through = agg_field(fn, src)
+                if through is not None:
+                    cur = through
+                    continue
                 if any(isinstance(pe, dict) and ("sub_from" in pe or "idx" in pe or "cidx" in pe) for pe in src["p"]):
                     narrowed = True
                 cur = src["l"]
@@ -300,3 +326,64 @@ def role_consistency(rep, prog, tag=""):
                                param_name(f, root), r1, param_name(g, i + 1), r2), loc=c.loc(),
                            key="ROLE|%s|%s|%d%s" % (f.key, g.key, i, tag))
     return n
+
+
+def is_zero_array_operand(fn, o):
+    """operand is (a reference to) an all-zero byte array built in this body or promoted."""
+    from ..expr import expr_of_operand, deep_repr
+    t = deep_repr(expr_of_operand(fn, o))
+    return t.replace("&", "").strip() in ("repeat(const(0))",) or t.startswith("repeat(const(0))")
+
+
+def zero_events(fn, views):
+    """Program points that overwrite every byte of a view in `views` with zero, in the idioms a
+    maintainer would use: slice.fill(0); copy_from_slice(&[0; N]); zeroize(); and
+    `for b in view.iter_mut() { *b = 0 }` (a store of constant 0 through a pointer that derives from an
+    iter_mut() over the view).  Returns [(bb, view_local, idiom)]."""
+    from ..expr import expr_of_operand, evaluate, call_arg_exprs
+    out = []
+    iters = {}
+    for c in fn.calls():
+        a0 = c.args[0] if c.args else None
+        l0 = a0["l"] if a0 is not None and a0.get("k") in ("copy", "move") else None
+        if l0 is None or l0 not in views:
+            continue
+        if c.path == "core::slice::<impl [T]>::fill" and len(c.args) == 2:
+            if evaluate(call_arg_exprs(c)[1], {}) == 0:
+                out.append((c.bb, l0, "fill(0)"))
+        elif c.path in COPY and len(c.args) == 2 and is_zero_array_operand(fn, c.args[1]):
+            out.append((c.bb, l0, "copy_from_slice(zeros)"))
+        elif c.path.endswith("Zeroize::zeroize"):
+            out.append((c.bb, l0, "zeroize"))
+        elif c.path == "core::slice::<impl [T]>::iter_mut":
+            iters[c.dest["l"]] = (l0, c.bb)
+    if iters:
+        for b, i, s in fn.assigns():
+            pl = s["place"]
+            if pl["p"] == ["deref"] and s["rv"]["k"] == "use" and s["rv"]["x"].get("k") == "const" and s["rv"]["x"].get("v") == 0:
+                back = fn.backward_slice([pl["l"]])
+                for it, (v, itb) in iters.items():
+                    # the event is placed at the iter_mut() call: the loop that follows visits every
+                    # element of the view (a zero-trip loop means an empty view)
+                    if it in back and itb in fn.dom.get(b, ()):
+                        out.append((itb, v, "iter_mut loop storing 0"))
+    return out
+
+
+def const_index_stores(fn, views):
+    """[(bb, view_local, index, value)] for stores `view[const i] = const v`."""
+    from ..expr import expr_of_operand, evaluate
+    out = []
+    for b, i, s in fn.assigns():
+        pl = s["place"]
+        if pl["l"] not in views or s["rv"]["k"] != "use" or s["rv"]["x"].get("k") != "const" or s["rv"]["x"].get("v") is None:
+            continue
+        idx = None
+        for pe in pl["p"]:
+            if isinstance(pe, dict) and "cidx" in pe:
+                idx = pe["cidx"]
+            elif isinstance(pe, dict) and "idx" in pe:
+                idx = evaluate(expr_of_operand(fn, {"k": "copy", "l": pe["idx"], "p": []}), {})
+        if isinstance(idx, int) and not isinstance(idx, bool):
+            out.append((b, pl["l"], idx, s["rv"]["x"]["v"]))
+    return out
